@@ -186,6 +186,56 @@ fn backend<B: Backend>(opts: &Opts, rep: &mut Report) {
             }
         }
         rep.count_n(&format!("{}.{}.positive-controls", B::NAME, kind.name()), positives);
+        // 5. passwords that a lenient comparison would treat as "the same": every pair of distinct
+        //    members of a family of look-alikes, wrapped with one and unwrapped with the other
+        if kind.is_pw() {
+            let base: &[u8] = b"Correct Horse";
+            let mut family: Vec<Vec<u8>> = vec![base.to_vec()];
+            for ws in [&b" "[..], b"\t", b"\n", b"\r", b"\r\n", b"\x0b", b"\x0c", b"\xc2\xa0", b"\xe2\x80\x8b", b"  "] {
+                family.push([base, ws].concat());
+                family.push([ws, base].concat());
+            }
+            family.push(b"correct horse".to_vec());
+            family.push(b"CORRECT HORSE".to_vec());
+            family.push(b"Correct  Horse".to_vec());
+            family.push(b"CorrectHorse".to_vec());
+            family.push(b"Correct Hors".to_vec());
+            family.push(b"Correct HorseCorrect Horse".to_vec());
+            family.push("Corr\u{e9}ct Horse".as_bytes().to_vec()); // NFC
+            family.push("Corre\u{301}ct Horse".as_bytes().to_vec()); // NFD
+            if B::VER % 2 == 0 {
+                family.push([base, b"\0"].concat()); // distinguishable under Argon2 only
+            }
+            let key_raw = gen_wrapped_key::<B>(kind, &mut rng);
+            for (wi, wpass) in family.iter().enumerate() {
+                idx += 1;
+                if !opts.mine(idx) {
+                    continue;
+                }
+                // every member wraps in quick for the bare/whitespace pairs; the full square in thorough
+                if !opts.thorough() && wi > 4 && wi % 5 != 0 {
+                    continue;
+                }
+                let mut ws = s.clone();
+                ws.pass = wpass.clone();
+                let Ok(blob) = wrap::<B>(kind, &key_raw, &ws) else {
+                    rep.inconclusive(&format!("{} {}: wrap failed — see C05", B::NAME, kind.name()));
+                    continue;
+                };
+                if !matches!(guard(|| unwrap::<B>(kind, &blob, &ws)), Ok(Ok(k)) if k == key_raw) {
+                    rep.inconclusive(&format!("{} {}: positive control failed — see C05", B::NAME, kind.name()));
+                    continue;
+                }
+                for upass in &family {
+                    if upass == wpass {
+                        continue;
+                    }
+                    let mut us = s.clone();
+                    us.pass = upass.clone();
+                    expect_err::<B>(rep, kind, "lookalike-password", &blob, &us, &key_raw);
+                }
+            }
+        }
     }
 }
 
@@ -233,7 +283,7 @@ pub fn run(opts: &Opts) {
     pairs!(V1 => V3Lc, V3Lc => V1, V2 => V4Na, V4Na => V2, V3Lc => V4Na, V4Na => V3Lc, V3 => V4Na, V4 => V3Lc, V3Lc => V4, V4Na => V3, V3Lc => V2, V4Na => V1);
     rep.set(
         "rule",
-        json!("fault enumeration per wrapped/sealed blob: every single-bit flip of every byte (tag, nonce, salt, parameters, ephemeral key / RSA ciphertext, encrypted key), truncation to every length, extensions, every other kind's header over the same body (same backend and every other version with the same wrapping key / password / where formats coincide the same recipient key), wrong wrapping key (random, one bit), wrong password (prefix, one char, empty, NUL suffix, case), other recipient; non-trivial = differs from the produced blob/secret; KDF costs beyond 64 MiB / 3 passes / 200k iterations are skipped and counted"),
+        json!("fault enumeration per wrapped/sealed blob (plus, for password wraps, a family of ~30 look-alike passwords - trailing/leading whitespace of every kind, case, doubled spaces, NFC/NFD, truncation, repetition - wrapped with one member and unwrapped with every other): every single-bit flip of every byte (tag, nonce, salt, parameters, ephemeral key / RSA ciphertext, encrypted key), truncation to every length, extensions, every other kind's header over the same body (same backend and every other version with the same wrapping key / password / where formats coincide the same recipient key), wrong wrapping key (random, one bit), wrong password (prefix, one char, empty, NUL suffix, case), other recipient; non-trivial = differs from the produced blob/secret; KDF costs beyond 64 MiB / 3 passes / 200k iterations are skipped and counted"),
     );
     rep.finish(opts);
 }
